@@ -21,7 +21,13 @@ func (g *Ghost) globalFact(c *FnCtx, gl *ssa.Global, term string) string { retur
 
 // ---- hooks called by the executor (no-ops unless a ghost discipline is active) ----
 
-func (e *Engine) onStore(c *FnCtx, st *State, l *Loc, v Val, pos token.Pos)      {}
+func (e *Engine) onStore(c *FnCtx, st *State, l *Loc, v Val, pos token.Pos) {
+	if l.Kind == locField && isMessageStruct(l.RootT) {
+		if _, ok := e.comps[msgComp]; ok {
+			st.heap[msgComp] = c.sc.Fresh(msgComp+"$store", e.comps[msgComp])
+		}
+	}
+}
 func (e *Engine) onLoad(c *FnCtx, st *State, l *Loc, pos token.Pos)               {}
 func (e *Engine) onAlloc(c *FnCtx, st *State, ref string, t types.Type)           {}
 func (e *Engine) onMapRead(c *FnCtx, st *State, m string, pos token.Pos)          {}
